@@ -208,6 +208,15 @@ func (propC11) Gen(r *Rng, tier string) *World {
 		}
 		if !undefined || r.P(0.5) {
 			regSome(need)
+		} else {
+			// a name that is also a built-in operator's can only be a registered variable
+			var must []string
+			for _, n := range need {
+				if opLikeVarNames[n] {
+					must = append(must, n)
+				}
+			}
+			regSome(must)
 		}
 		w.Steps = append(w.Steps, Step{Op: "compile", Expr: pi, Mask: r.Intn(16)})
 		compiled[pi] = true
